@@ -1,7 +1,7 @@
 (* Props/C08.v — Exported gradient waveforms equal an event-by-event rendering.
    Only statements, each closed by [exact] of a lemma from Proofs/ExportProofs.v, with Print Assumptions. *)
 From Coq Require Import ZArith QArith Qabs List Bool Arith Lia Lqa.
-From PV Require Import Base.QUtil Base.PWL Gen.GenExport Model.Export Proofs.ExportProofs Proofs.ExportBlocks Proofs.ExportRange.
+From PV Require Import Base.QUtil Base.PWL Gen.GenExport Model.Export Proofs.ExportProofs Proofs.ExportBlocks Proofs.ExportRange Proofs.ExportEvents Proofs.ExportArea.
 Import ListNotations.
 Open Scope Q_scope.
 
@@ -51,6 +51,35 @@ Theorem C08_starts_are_prefix_sums : forall bs s i, (i < length bs)%nat ->
 Proof. exact starts_are_prefix_sums. Qed.
 Print Assumptions C08_starts_are_prefix_sums.
 
+(* The main statement on EVENTS (input level).  [Connected raster ch None bs] says, in relative times only:
+   every gradient of the channel is timing valid inside its block ([gwf]: non-negative delay, ramps / corner
+   spacings of at least eps, event ends inside the block) and consecutive gradients connect as add_block
+   demands (C05): a gradient starts exactly where the previous one ended — previous one ends at its block end,
+   this one has delay 0, no time in between — with the same value (last of block i == first of block i+1),
+   or more than eps later with both values zero.  Then the export succeeds, its times increase strictly, it
+   equals render(g)(t - block start) whenever the gradient g of block i is active at t, and it is zero when no
+   gradient is active. *)
+Theorem C08_waveform_is_rendering_events : forall raster bs ch, Connected raster ch None bs ->
+  exists w, waveform raster bs ch = WOk w /\
+    sorted_strict (times w) /\
+    (forall i g t, active raster bs ch i g t -> eval w t == render raster g (t - nth i (starts 0 bs) 0)) /\
+    (forall t, (forall i g, ~ active raster bs ch i g t) -> eval w t == 0).
+Proof. exact waveform_is_rendering_events. Qed.
+Print Assumptions C08_waveform_is_rendering_events.
+
+Theorem C08_connected_edge_consistent : forall raster ch bs start,
+  Connected raster ch None bs -> EdgeConsistent (pieces raster start bs ch).
+Proof. exact connected_edge_consistent. Qed.
+Print Assumptions C08_connected_edge_consistent.
+
+(* get_gradients: the two zero samples teps and 2 teps before / after the waveform are invisible inside the
+   waveform, and from teps outside on the padded function is zero (PPoly extrapolates the zero segments) *)
+Theorem C08_padding_invisible : forall w t, w <> [] -> sorted_strict (times w) ->
+  (inside w t -> eval (padded w) t == eval w t) /\
+  (t <= tfirst w - teps \/ tlast w + teps <= t -> eval (padded w) t == 0).
+Proof. intros w t Hn Hs. split; [apply eval_padded_inside|apply eval_padded_outside]; assumption. Qed.
+Print Assumptions C08_padding_invisible.
+
 (* time_range = [a, c]: for non-negative block durations the two searchsorted calls select exactly the
    blocks overlapping the closed range (block end >= a and block start <= c), and the restricted export is
    the export of exactly those blocks started at the true start time of the first of them — so by
@@ -91,6 +120,24 @@ Proof.
   - repeat constructor; unfold eps; cbn; try lia; try (unfold Qle; cbn; lia).
   - cbn [chain]. split; [left|split; [right|exact I]]; unfold tlast, tfirst, vlast, vfirst, eps; cbn;
       repeat split; try reflexivity; try (unfold Qlt; cbn; lia).
+Qed.
+
+(* Non-vacuity of the input-level condition: an extended trapezoid ending at 5 at its block end, continued
+   from 5 by the next block, then (after an empty block) a delayed trapezoid *)
+Example C08_connected_example :
+  Connected (1 # 100000) 0 None
+    [mkBlock (2 # 10000) [Some (Corners 0 [0; 1 # 10000; 2 # 10000] [0; 3; 5] 0 5)];
+     mkBlock (1 # 10000) [Some (Corners 0 [0; 1 # 10000] [5; 0] 5 0)];
+     mkBlock (1 # 10000) [None];
+     mkBlock (1 # 1000) [Some (Trap 7 (1 # 10000) (2 # 10000) (1 # 10000) (1 # 10000))]].
+Proof.
+  cbn [Connected bgrad nth b_g b_dur bump]. unfold gwf, link_in, g_begin_r, g_end_r, g_first_val, g_last_val.
+  assert (E1 : is_arb (1 # 100000) [0; 1 # 10000; 2 # 10000] = false) by (vm_compute; reflexivity).
+  assert (E2 : is_arb (1 # 100000) [0; 1 # 10000] = false) by (vm_compute; reflexivity).
+  rewrite E1, E2. unfold spaced, qlast, eps. cbn [all_consec length hd last].
+  repeat split; try lia; try (unfold Qle, Qlt; cbn; lia).
+  - left. split; reflexivity.
+  - right. repeat split; try reflexivity.
 Qed.
 
 (* Where the statement would be false without the hypothesis: pieces that touch at different values
